@@ -281,6 +281,24 @@ def run(ctx):
                         if stl2 == "ok":
                             reqs.append({"op": "liftTarget", "s": info.lean_id, "doc": info.node(d), "from": f_, "to": t_, "depth": br2[1].depth})
                             metas.append(("liftTarget", {"schema": info.name, "doc": d.to_json(), "from": f_, "to": t_, "depth": br2[1].depth}, tgt2))
+                        # the edit itself, the way an editor performs it: both ends of the selection lie inside the node's
+                        # content, the block range is the library's own answer for them, the lift follows its lift_target —
+                        # literally: nothing up to and including the node's opening and from its closing on may change
+                        # (a collapsed selection directly in the node's content has, by the documented rule, the node itself as
+                        # its block range: that is a range around the node, not inside it, and is left out)
+                        if stl2 == "ok" and tgt2 is not None and (f_ < t_ or d.resolve(f_).depth > depth):
+                            old_l = doc_tokens(d)
+                            trl = Transform(d)
+                            stL, valL, _ = ops.run_op(trl, lambda tr_: tr_.lift(br2[1], tgt2))
+                            ctx.count("lift of a selection inside:" + stL)
+                            if stL == "ok":
+                                new_l = doc_tokens(trl.doc)
+                                tail_l = len(old_l) - (b - 1)
+                                if not (len(new_l) >= a + 1 + tail_l and new_l[:a + 1] == old_l[:a + 1] and new_l[len(new_l) - tail_l:] == old_l[b - 1:]
+                                        and match_close(new_l, a) == len(new_l) - tail_l):
+                                    ctx.violation("lift-escaped", "lifting the block range of a selection inside an isolating node changed tokens outside the node's content",
+                                                  {"schema": info.name, "doc": d.to_json(), "from": f_, "to": t_, "iso": [a, b],
+                                                   "range": [br2[1].start, br2[1].end, br2[1].depth], "target": tgt2})
                     for dp in (1, 2, 3):
                         sts2, ok2 = outcome(lambda: can_split(d, p, dp))
                         if sts2 == "ok":
